@@ -1,9 +1,9 @@
 (* Props/C18.v — The depth limit is exact (and parse cost stays bounded: see the known finding).
-   Statements only; proofs in Proofs/DepthProofs.v, DepthDictProofs.v, DepthOptProofs.v, DepthUnionProofs.v.
+   Statements only; proofs in Proofs/DepthProofs.v, DepthDictProofs.v, DepthOptProofs.v, DepthUnionProofs.v, DepthTupleProofs.v.
    `ex` is the list of names the class excludes from additional keys (reflected from the real class:
    the theorems hold for any).  The depth suite of harness/c18.py checks on every run that the classes
    declared with the real library reflect to exactly node_decl_ex / dnode_decl_ex / onode_decl_ex. *)
-From UV Require Import Parse DepthSpec DepthProofs DepthDictProofs DepthOptProofs DepthUnionProofs.
+From UV Require Import Parse DepthSpec DepthProofs DepthDictProofs DepthOptProofs DepthUnionProofs DepthTupleProofs.
 Open Scope string_scope.
 Open Scope list_scope.
 Open Scope Z_scope.
@@ -20,6 +20,15 @@ Theorem C18_list_exact :
   (d < Z.of_nat (height t) ->
      raises_parse (call_dataclass re (node_world_ex ex (Some d)) fuel 0 None (to_val t))).
 Proof. exact node_call. Qed.
+
+(* `... link: Tuple['Node', ...] = ()`: the same trees given as tuples; the converted elements are rebuilt into a tuple *)
+Theorem C18_tuple_exact :
+  forall re ex d t fuel, 1 <= d -> (2 * height t <= fuel)%nat ->
+  (Z.of_nat (height t) <= d ->
+     call_dataclass re (tnode_world_ex ex (Some d)) fuel 0 None (to_val_t t) = Ok (inst_t t)) /\
+  (d < Z.of_nat (height t) ->
+     raises_parse (call_dataclass re (tnode_world_ex ex (Some d)) fuel 0 None (to_val_t t))).
+Proof. exact tnode_call. Qed.
 
 (* `class Node(Schema): __options__ = Options(max_depth=d); v: int; link: Dict[str, 'Node']`:
    the same for every tree of mappings (any number of entries, any keys, distinct at each node as in
